@@ -25,8 +25,10 @@ The model mirrors what the code *does*, including:
   * `context.version = parse_version(<the declarations of this file>)` is an assignment: the file parsed
     last (the main file) decides, a version declared only in an included file is lost, and conflicting
     versions in different files are not detected;
-  * `merge_options` tests `user_options.get(name)` and `option.get("default")` for *truthiness*; the
-    two tests are parameters of the model (`Test.truthyGet` / `Test.contains`), pinned from the AST.
+  * the two tests of `merge_options` are parameters of the model (`Test.truthyGet` for `d.get(k)`,
+    `Test.contains` for `k in d`), pinned from the AST: `name in user_options` / `"default" in option`
+    since the repair of D12 (commit d8c74a2; before: truthiness of `user_options.get(name)` /
+    `option.get("default")`).
 Field definitions other than nested templates, and the template attributes that this layer only
 passes through (nickname, count, just_once …), are opaque payload strings.
 No Mathlib import (linked into the driver).
